@@ -189,14 +189,18 @@ func newBuilder(g *graph, avoid map[int]bool) *builder {
 	return b
 }
 
-func (b *builder) make(ei int) (tcase, bool) {
+// make builds the case of edge ei. ok=false with implied=true: a CtxDoneAlreadyReady(p)
+// transition out of a state in which p was admitted some steps earlier; it commutes with
+// the steps of the other processes taken since and is represented by the staged race on
+// the admitting transition.
+func (b *builder) make(ei int) (t tcase, ok bool, implied bool) {
 	g := b.g
 	e := g.edges[ei]
-	t := tcase{edge: ei, last: ei}
+	t = tcase{edge: ei, last: ei}
 	from := e.from
 	switch e.name {
 	case "AcquireWake":
-		return t, false
+		return t, false, true
 	case "CtxDoneAlreadyReady":
 		// exercised on an edge that admits p: the driver cancels p from inside the hook
 		p := int(e.args[0])
@@ -213,14 +217,21 @@ func (b *builder) make(ei int) (tcase, bool) {
 			}
 		}
 		if best < 0 {
-			return t, false
+			direct := false
+			for _, ai := range b.in[e.from] {
+				a := g.edges[ai]
+				if a.from != a.to && g.nodes[a.from].St[p-1] == "waiting" && g.nodes[a.to].St[p-1] == "ready" {
+					direct = true
+				}
+			}
+			return t, false, !direct
 		}
 		t.last = best
 		t.HookCancel = p
 		from = g.edges[best].from
 	}
 	if !b.reach[from] {
-		return t, false
+		return t, false, false
 	}
 	path, start := g.pathTo(b.parent, from)
 	t.pre = path
@@ -232,7 +243,7 @@ func (b *builder) make(ei int) (tcase, bool) {
 		t.pre = append(append([]int32{}, path...), int32(t.last))
 	}
 	t.Ops = append(t.Ops, g.edges[t.last].label)
-	return t, true
+	return t, true, false
 }
 
 // runCases executes the cases on nproc driver processes. obs[i] is nil for cases that were
@@ -306,20 +317,21 @@ func runCases(drv string, np int, cases []tcase, nproc, batch int) ([]*obsT, err
 }
 
 type graphStats struct {
-	Config       string         `json:"config"`
-	States       int            `json:"states"`
-	Transitions  int            `json:"transitions"`
-	Depth        int            `json:"depth"`
-	ByAction     map[string]int `json:"transitions_by_action"`
-	Replayed     int            `json:"transitions_replayed"`
-	WakeEdges    int            `json:"wake_transitions_covered_by_admitting_edges"`
-	CtxReadySeen int            `json:"ctx_ready_observed"`
-	CtxReadyRuns int            `json:"ctx_ready_attempts"`
-	Untestable   int            `json:"transitions_not_replayable"`
-	ImplOutcomes map[string]int `json:"impl_outcomes"`
-	Mismatches   int            `json:"mismatching_transitions"`
-	TLCWall      float64        `json:"tlc_wall_s"`
-	ReplayWall   float64        `json:"replay_wall_s"`
+	Config          string         `json:"config"`
+	States          int            `json:"states"`
+	Transitions     int            `json:"transitions"`
+	Depth           int            `json:"depth"`
+	ByAction        map[string]int `json:"transitions_by_action"`
+	Replayed        int            `json:"transitions_replayed"`
+	WakeEdges       int            `json:"wake_transitions_covered_by_admitting_edges"`
+	CtxReadySeen    int            `json:"ctx_ready_staged_and_observed"`
+	CtxReadyImplied int            `json:"ctx_ready_transitions_implied_by_commutation"`
+	CtxReadyRuns    int            `json:"ctx_ready_attempts"`
+	Untestable      int            `json:"transitions_not_replayable"`
+	ImplOutcomes    map[string]int `json:"impl_outcomes"`
+	Mismatches      int            `json:"mismatching_transitions"`
+	TLCWall         float64        `json:"tlc_wall_s"`
+	ReplayWall      float64        `json:"replay_wall_s"`
 }
 
 func weightClass(g *graph, t tcase) string {
@@ -340,19 +352,36 @@ var requiredActions = []string{"AcquireFast", "AcquireDoomed", "AcquireEnqueue",
 
 // replayGraph: TLC explores the bounded model and dumps the labelled state graph; every
 // transition is replayed on the real semaphore.
-func replayGraph(c *core.Ctx, drv, name string, consts map[string]string, np, nproc int, sample int) (*graphStats, error) {
+type dumped struct {
+	res *core.TLCResult
+	g   *graph
+	err error
+}
+
+// dumpGraph: TLC explores the bounded model (checking the invariants and action
+// properties on the way) and dumps the labelled state graph.
+func dumpGraph(c *core.Ctx, consts map[string]string) dumped {
 	res, err := c.MustTLC(core.TLCOpts{Module: "MC_Semaphore", Cfg: "MC_Semaphore.cfg", Consts: consts, Workers: 4,
 		DumpDot: true, Timeout: 12 * time.Minute})
 	if err != nil {
-		return nil, err
+		return dumped{err: err}
 	}
 	g, err := parseDot(res.Dot)
 	if err != nil {
-		return nil, err
+		return dumped{err: err}
 	}
 	if len(g.nodes) != res.Distinct {
-		return nil, fmt.Errorf("dot graph has %d nodes, TLC reported %d distinct states", len(g.nodes), res.Distinct)
+		return dumped{err: fmt.Errorf("dot graph has %d nodes, TLC reported %d distinct states", len(g.nodes), res.Distinct)}
 	}
+	return dumped{res: res, g: g}
+}
+
+// replayGraph replays every transition of the dumped state graph on the real semaphore.
+func replayGraph(c *core.Ctx, drv, name string, d dumped, np, nproc int, sample int) (*graphStats, *graph, error) {
+	if d.err != nil {
+		return nil, nil, d.err
+	}
+	res, g := d.res, d.g
 	st := &graphStats{Config: name, States: len(g.nodes), Transitions: len(g.edges), Depth: res.Depth,
 		ByAction: map[string]int{}, ImplOutcomes: map[string]int{}, TLCWall: res.Wall.Seconds()}
 	for _, e := range g.edges {
@@ -360,7 +389,7 @@ func replayGraph(c *core.Ctx, drv, name string, consts map[string]string, np, np
 	}
 	for _, a := range requiredActions {
 		if st.ByAction[a] == 0 {
-			return nil, fmt.Errorf("vacuous: action %s has no transition in the %s graph", a, name)
+			return nil, nil, fmt.Errorf("vacuous: action %s has no transition in the %s graph", a, name)
 		}
 	}
 	st.WakeEdges = st.ByAction["AcquireWake"]
@@ -392,8 +421,10 @@ func replayGraph(c *core.Ctx, drv, name string, consts map[string]string, np, np
 		b := newBuilder(g, avoid)
 		var cases []tcase
 		for _, ei := range todo {
-			if t, ok := b.make(ei); ok {
+			if t, ok, implied := b.make(ei); ok {
 				cases = append(cases, t)
+			} else if implied {
+				st.CtxReadyImplied++
 			} else {
 				st.Untestable++
 			}
@@ -403,7 +434,7 @@ func replayGraph(c *core.Ctx, drv, name string, consts map[string]string, np, np
 		for attempt := 0; attempt < 60 && len(pending) > 0; attempt++ {
 			obs, err := runCases(drv, np, pending, nproc, 400)
 			if err != nil {
-				return st, err
+				return st, g, err
 			}
 			var again []tcase
 			for i, t := range pending {
@@ -444,7 +475,7 @@ func replayGraph(c *core.Ctx, drv, name string, consts map[string]string, np, np
 			pending = again
 		}
 		if len(pending) > 0 {
-			return st, fmt.Errorf("%d CtxDoneAlreadyReady transitions could not be exercised in 60 attempts (the cancelled waiter always won the race for s.mu)", len(pending))
+			return st, g, fmt.Errorf("%d CtxDoneAlreadyReady transitions could not be exercised in 60 attempts (the cancelled waiter always won the race for s.mu)", len(pending))
 		}
 		// primary mismatches: own case mismatches and no edge of its prefix does
 		var shadowed []int
@@ -499,14 +530,14 @@ func replayGraph(c *core.Ctx, drv, name string, consts map[string]string, np, np
 		}
 		again, err := runCases(drv, np, []tcase{t}, 1, 1)
 		if err != nil {
-			return st, err
+			return st, g, err
 		}
 		if again[0] == nil {
-			return st, fmt.Errorf("reproduction run of %v did not execute", t.Ops)
+			return st, g, fmt.Errorf("reproduction run of %v did not execute", t.Ops)
 		}
 		m2 := checkCase(g, t, *again[0])
 		if m2 == "" {
-			return st, fmt.Errorf("mismatch on %v (%s) was not reproduced in a fresh driver process", t.Ops, mism[ei])
+			return st, g, fmt.Errorf("mismatch on %v (%s) was not reproduced in a fresh driver process", t.Ops, mism[ei])
 		}
 		reported[key] = true
 		exp := canon(g.nodes[g.edges[t.edge].to])
@@ -517,7 +548,7 @@ func replayGraph(c *core.Ctx, drv, name string, consts map[string]string, np, np
 			map[string]any{"kind": "replay", "np": np, "size": t.Size, "ops": t.Ops, "hook_cancel": t.HookCancel,
 				"expected": exp, "observed": again[0], "transition": g.edges[t.edge].label, "graph": name})
 	}
-	return st, nil
+	return st, g, nil
 }
 
 func evsText(evs []hookEv) string {
@@ -537,7 +568,7 @@ func selfTestReplay(c *core.Ctx, drv string, g *graph, np int) error {
 		if projEq(canon(g.nodes[e.from]), canon(g.nodes[e.to])) {
 			continue
 		}
-		if t, ok := b.make(i); ok && len(cases) < 200 && i%7 == 0 {
+		if t, ok, _ := b.make(i); ok && len(cases) < 200 && i%7 == 0 {
 			t.Ops = t.Ops[:len(t.Ops)-1] // the shim: drop the operation under test
 			cases = append(cases, t)
 		}
